@@ -4,6 +4,7 @@
 f28_0:
   ret
   lea d_f28_0(%rip),%rax
+  mov wvsv0(%rip),%rax
   ret
 .section .data.d_f28_0,"aw",@progbits
 .globl d_f28_0
@@ -14,6 +15,8 @@ d_f28_0:
 .type f28_1,@function
 f28_1:
   ret
+  mov wvsv0@GOTPCREL(%rip),%rax
+  mov wvsv0(%rip),%rax
   ret
 .section .text.f28_2,"ax",@progbits
 .globl f28_2
